@@ -55,6 +55,9 @@ MENUS = (
 )
 
 
+IDENTITY_HASH = ("HNode", "HAny", "HMix", "HLightDict", "PNode", "PAny", "HNodeBag", "HNodeNo", "HMixSlot", "HLight", "HLightSub", "HLightStr", "HLightBag", "HLightNo")
+
+
 def gen_cfg(rng, prop, tier):
     cfg = struct.gen_cfg(rng, "C02", tier, allow_big=False)
     cfg["prop"] = "C19"
@@ -85,6 +88,7 @@ def gen_cfg(rng, prop, tier):
     cfg["fresh"] = False
     # some nodes carry an immutable container holding another node and a list: the copy must reach the
     # copied node through it and must not share the list
+    cfg["refdict"] = rng.random() < 0.5
     cfg["refs"] = [
         (rng.randrange(n) if (FAMILY[c] == "node" or c == "HLightDict") and c not in LINK_CLASSES and rng.random() < 0.15 else None)
         for c in classes
@@ -197,6 +201,12 @@ def match_copy(step, op, world, model, targets, entry, copy_entry, refs=None):
         if refs is not None and i < len(refs) and refs[i] is not None:
             r0 = orig.__dict__["ref"]
             r1 = c.__dict__.get("ref")
+            if type(r1) is tuple and len(r1) == 3 and len(r0) == 3:
+                d1 = r1[2]
+                if type(d1) is not dict or len(d1) != 1 or next(iter(d1)) is not r1[0] or next(iter(d1.values())) != i:
+                    raise Violation("C19", "attrs", step, "attrs-dict:" + op["method"][:6],
+                                    "step %d %s: the dictionary keyed by a node inside node %d's attribute does not come back keyed by the copied node" % (step, op, i))
+                r1 = r1[:2]
             if type(r1) is not tuple or len(r1) != 2 or r1[1] != r0[1]:
                 raise Violation("C19", "attrs", step, "attrs:" + op["method"][:6], "step %d %s: node %d attribute ref is %r in the copy" % (step, op, i, type(r1).__name__))
             if r1[1] is r0[1]:
@@ -404,7 +414,11 @@ def run(cfg, ops=None, rng=None):
     refs = list(cfg.get("refs") or [None] * len(classes))
     for i, j in enumerate(refs):
         if j is not None:
-            world.nodes[i].ref = (world.nodes[j], [i, j])
+            if cfg.get("refdict") and classes[j] in IDENTITY_HASH:
+                # ... and a dictionary keyed by that node (nodes hash by identity unless the user's class says otherwise)
+                world.nodes[i].ref = (world.nodes[j], [i, j], {world.nodes[j]: i})
+            else:
+                world.nodes[i].ref = (world.nodes[j], [i, j])
     h = hashlib.blake2b(digest_size=16)
     h.update(repr(sorted(cfg.items())).encode())
     replay = ops is not None
